@@ -117,6 +117,43 @@ DESC = {
     "C18-5": ("Wald branch only when p(1-p) > 0, else falls through to Agresti-Coull", "method wald with p exactly 0 or 1"),
     "C18-6": ("asymptotic normal-tail expansion for the z-score below 1e-4", "alpha < 1e-4 (confidence > 0.9998)"),
     "C17-6": ("codegen temporarily raises sys.setrecursionlimit and restores the saved value", "two threads overlapping in codegen on a > 1000-rung else-if ladder, in a particular exit order"),
+    # round 4 (Cxx-7, Cxx-8)
+    "C01-7": ("generated parameters / key order sorted with key=str.lower", ">= 2 splitter fields that differ only by letter case, evaluated in processes with different hash seeds"),
+    "C01-8": ("padded ids stripped by the evaluator, but the field list is a one-shot generator", "a splitter value with leading/trailing whitespace, evaluated twice on the same evaluator (first call after a compile vs later calls)"),
+    "C02-7": ("string operands of predicates rendered with json.dumps", "a predicate operand (plain or tuple member) containing a non-BMP character, and the input equal to it"),
+    "C02-8": ("Decimal / Fraction field values normalised through float() in the evaluator", "a Decimal or Fraction input closer to a numeric literal of a decisive comparison than double precision"),
+    "C03-7": ("weights reduced to smallest whole numbers with Fraction.limit_denominator() (default 1e6)", "a decimal weight with more than 6 decimal places or below 1e-6"),
+    "C03-8": ("long population / weight lists wrapped 8 per line with zip(*[iter]*8)", "a return statement with more than 8 groups whose count is not a multiple of 8"),
+    "C04-7": ("hash quantised to 10 000 buckets", "a group share below 1e-4, or hundreds of groups"),
+    "C04-8": ("salt folded to a 16-bit tag of its MD5", "two salts whose 4-hex-digit tags collide, on the same units"),
+    "C05-7": ("string terms rendered with json.dumps", "a string literal operand or tuple member with a code point above U+FFFF"),
+    "C05-8": ("exponent notation for numbers; integer tokens go through int(float())", "an integer literal above 2**53 that a double cannot represent"),
+    "C06-7": ("block comments skipped with str.find starting at the opener", "the exact sequence `/*/` with no later `*/`"),
+    "C06-8": ("conditional rules factored into `branch`; `else` accepts a trailing chain and drops it", "an `else {..}` or `else if` block directly after an `else {..}` block"),
+    "C07-7": ("condition fields passed to the inner function positionally from a differently ordered list", "a field that is both splitter and condition field plus a condition-only field sorting before it (the README's complete example)"),
+    "C07-8": ("friendly reserved-word check also rejects Python soft keywords", "an experiment id, splitter or condition identifier named type, match, case or _"),
+    "C08-7": ("parse_source passes the text through inspect.cleandoc (expandtabs)", "a TAB inside a string literal, with different trivia (column) in front of it"),
+    "C08-8": ("// comments honour a trailing backslash (line splicing)", "a // comment whose text ends with a backslash, followed by a line that matters"),
+    "C09-7": ("splitters that are also condition fields dropped from the hash key", "a declared splitter that also appears in a predicate; two units differing only in it"),
+    "C09-8": ("numeric splitter values rendered by value through float()", "ints >= 2**53, long Decimals or Fractions as splitter values (neighbours collapse); 7.0 vs 7"),
+    "C10-7": ("weights that are whole numbers summing to 100 use md5 % 100 instead of the 32-bit position", "the same unit under a whole-percent vector and under another spelling of shares (1:9, 0.2:0.8)"),
+    "C10-8": ("weights rendered one by one with trailing zeros stripped from repr", "a weight whose float repr is exponent notation with a fractional mantissa and an exponent ending in 0 (2.5e-10, 1.5e+20)"),
+    "C11-7": ("required-field list updated before the compile step of recompile", "a text that parses and generates but fails Python's compile() (about 100 nested ifs) and reads a field the installed program does not"),
+    "C11-8": ("change detection with zlib.adler32", "a new text that differs from the installed one only by an Adler-32-neutral edit (aca -> bab, def -> ecg)"),
+    "C12-7": ("backslash escapes accepted and unescaped in string literals", "a salt containing a doubled backslash or a backslash before a quote character"),
+    "C12-8": ("key built with `v if isinstance(v, str) else str(v)`", "a splitter value that is an instance of a str subclass whose __str__ differs from its characters (str-Enum)"),
+    "C13-7": ("string literal pattern closes on either quote character", "a literal containing the other quote character and shaped like DSL text"),
+    "C13-8": ("unroutable error message quotes the rendered predicates inside double quotes", "a condition literal containing a quote character, shaped so that the message ends early and code follows"),
+    "C14-7": ("evaluator hands integral floats to the compiled function as ints", "a float-typed integral value on a splitter field; generated text hashes '12.0', evaluator '12'"),
+    "C14-8": ("evaluator compiles literal allow-lists as set displays, generate_code keeps tuples", "an unhashable (or oddly hashed) left operand of in / not in against an all-literal tuple"),
+    "C15-7": ("hash position divided by 0xFFFFFFFF", "the key whose MD5 starts with ffffffff (plain id 4958115803): u == 1.0, last group even if weighted 0"),
+    "C15-8": ("escaped-string regex for literals", "a salt ending in an odd number of backslashes (no longer terminates), or containing a doubled backslash"),
+    "C16-7": ("finiteness test rewritten from not isfinite(total) to total == inf", "a NaN total (NaN weight, inf and -inf together, NaN last cum_weight)"),
+    "C16-8": ("id stripped of surrounding whitespace on the weighted path only", "an id differing from its strip(), compared between the unweighted call and equal integer weights"),
+    "C17-7": ("evaluator keeps (namespace, AST) and looks the function up by experiment name per call", "a call racing with a recompile between two sources whose experiments have different names"),
+    "C17-8": ("sly: LALR tables built lazily by the first parse()", "the first ever parse of the interpreter happening in >= 2 threads at once (cold start)"),
+    "C18-7": ("integer p taken as a success count", "p given as the int 1 (or True) with n > 1"),
+    "C18-8": ("probit scale constant hoisted and truncated to 0.6266", "alpha within about 0.02 of 0.5 (confidence below 0.036): z drops below the true normal quantile"),
 }
 
 
@@ -137,7 +174,10 @@ def main():
             written_by="independent sub-agent given only the property text and a scratch git worktree of /repo (nothing from /verif)"
                        + ("; round 2: additionally told which round-1 ideas not to repeat" if int(name.split("-")[1]) in (3, 4) else "")
                        + ("; round 3: told the ideas of rounds 1-2 and asked to work in the vendored sly library / the pydantic AST / files "
-                          "earlier rounds left alone (C02, C05-C08, C11, C13, C14, C17) or given a per-property focus area (the other nine)" if int(name.split("-")[1]) >= 5 else ""),
+                          "earlier rounds left alone (C02, C05-C08, C11, C13, C14, C17) or given a per-property focus area (the other nine)" if int(name.split("-")[1]) in (5, 6) else "")
+                       + ("; round 4: told the ideas of rounds 1-3 and asked for something different that a broad random workload of ordinary programs "
+                          "and values would hit rarely or never (type-dependent slips, ordering assumptions, drifting code paths, well-meant normalisation, "
+                          "upgrades of the vendored sly)" if int(name.split("-")[1]) >= 7 else ""),
             confirmed=dict(
                 patch_applies=run.get("patch_applies"),
                 baseline_tests_pass_with_change=run.get("tests_pass_with_change"),
